@@ -88,6 +88,11 @@ CELLS = [
     ("std/augmented", G2, False,
      {"flow_proposal_class": "augmentedflowproposal"}),
     ("std/4d", G4, False, {}),
+    # the augment parameters are marginalised out of the proposal density
+    # by Monte Carlo
+    ("std/augmented-marginalised", G4, False,
+     {"flow_proposal_class": "augmentedflowproposal",
+      "marginalise_augment": True, "n_marg": 50}),
     ("ins/default", G2, True, {}),
     ("ins/strict", G2, True, {"strict_threshold": True}),
     ("ins/replace-all", G2, True, {"replace_all": True}),
@@ -112,8 +117,13 @@ CELLS = [
     # at the third level) and resumed from their last checkpoint
     ("std/resumed", G2, False,
      {"checkpointing": True, "checkpoint_on_iteration": True,
-      "checkpoint_interval": 1},
+      "checkpoint_interval": 1, "maximum_uninformed": 50},
      [{"event": "population", "k": 1}, {"event": "iteration", "k": 260}]),
+    # SIGTERM while the likelihood of the first flow pool is evaluated (the
+    # handler checkpoints and exits), then resumed
+    ("std/signal-resumed", G2, False,
+     {"checkpointing": True, "maximum_uninformed": 50},
+     [{"event": "population", "k": 1, "signal": "SIGTERM"}]),
     ("ins/resumed", G2, True,
      {"checkpointing": True, "checkpoint_interval": 1},
      [{"event": "level", "k": 5}]),
@@ -280,7 +290,7 @@ def run(ctx):
         # VERIF_SEED), 12 seeds for the rest (the thresholds follow the
         # number of seeds of each cell)
         keep = {"std/default", "std/no-uninformed", "ins/default",
-                "std/augmented", "ins/n-initial"}
+                "std/augmented", "ins/n-initial", "std/signal-resumed"}
         rest = [c for c in CELLS if c[0] not in keep]
         k = ctx.seed % 5
         S_of = {c[0]: 20 for c in CELLS if c[0] in keep}
